@@ -55,12 +55,16 @@ Run run_exe(const std::vector<std::string>& args)
   posix_spawn_file_actions_addclose(&fa, po[0]);
   posix_spawn_file_actions_addclose(&fa, pe[0]);
   posix_spawn_file_actions_addopen(&fa, 0, "/dev/null", O_RDONLY, 0);
+  // the child runs under coreutils `timeout` (SIGKILL after 40 s): a command line that starts an endless computation on a
+  // changed tree must not survive the harness as an orphan (status 137 is then reported and disagrees with the model)
+  static const std::string t0 = "timeout", t1 = "-s", t2 = "KILL", t3 = "40";
   std::vector<char*> argv;
+  for (const std::string* t : {&t0, &t1, &t2, &t3}) argv.push_back(const_cast<char*>(t->c_str()));
   argv.push_back(const_cast<char*>(exe.c_str()));
   for (auto& s : args) argv.push_back(const_cast<char*>(s.c_str()));
   argv.push_back(nullptr);
   pid_t pid;
-  int rc = posix_spawn(&pid, exe.c_str(), &fa, nullptr, argv.data(), environ);
+  int rc = posix_spawnp(&pid, "timeout", &fa, nullptr, argv.data(), environ);
   posix_spawn_file_actions_destroy(&fa);
   close(po[1]); close(pe[1]);
   if (rc != 0) { close(po[0]); close(pe[0]); r.err = "spawn"; return r; }
